@@ -313,11 +313,28 @@ def inline_crate(repo, arg, subs, unit):
         lib = '\n'.join(l for l in lib.split('\n') if l.startswith('pub use ') or l.startswith('use '))
         parts.append(lib)
     files = []
+    reduce = {}
+    for s_ in subs:
+        w = s_.split()
+        if w[0] == 'reduce':
+            reduce[w[1]] = w[2].split(',')
+    subs = [s_ for s_ in subs if s_.split()[0] != 'reduce']
     for m in mods:
         modname, fname = (m.split(':') + [None])[:2]
         fname = fname or modname
         src, r = _read_module(base, fname, log)
         files += r
+        if fname in reduce:
+            # keep only `use` lines and the named fns (their bodies stay, but they become external_body): everything
+            # else in the module is dropped because Verus rejects it and no contract of the unit needs it
+            msk = mask(src)
+            kept = [l for l in src.split('\n') if re.match(r'(pub )?use ', l)]
+            for name, s0, k, e, ind in fn_spans(src, msk):
+                if name in reduce[fname] and ind == '':
+                    kept.append('#[verifier::external_body] /*vx:reduced-module: body dropped (unverified, refers to dropped items)*/\n' + src[s0:k] + '{ unimplemented!() }')
+                    report.append('%s::%s::%s (module reduced to this signature)' % (cname, modname, name))
+            src = '\n'.join(kept)
+            log.append('%s: module reduced to fns %s (T8; all other items dropped)' % (fname, ','.join(reduce[fname])))
         src, c = hoist_closure_patterns(src)
         if c:
             log.append('%s: %d closure parameter patterns hoisted (T5)' % (fname, c))
